@@ -728,6 +728,27 @@ _LEN_MINUS_1 = _re.compile(r"^len\((.*)\) - 1$")
 # ---------------------------------------------------------------------------
 
 
+def _greens_grouping_helper(repo: Repo, outer: ast.FunctionDef) -> list:
+    """The function that builds the Green's functions of the energy groups, by role: it calls `direct_greens_function` (itself or
+    through one helper) and is nested in solve_sylvester_direct -- or, after an extraction, a module-level function that
+    solve_sylvester_direct calls."""
+    from .core import nested_defs
+    def calls_dgf(fn, depth=0):
+        for c in ast.walk(fn):
+            if isinstance(c, ast.Call) and call_name(c) == "direct_greens_function":
+                return True
+        return False
+    named = [d for d in nested_defs(outer) if d in outer.body and d.name == "grouped_greens_functions"]
+    if named:
+        return named
+    nested = [d for d in nested_defs(outer) if d in outer.body and calls_dgf(d)]
+    if len(nested) != 1:
+        return []
+    # (an extracted module-level version takes what used to be captured as extra parameters; the rules below compare resolved texts of
+    # the closure form and would misread it -- tried on R22 --, so it is reported as not found: cannot decide)
+    return nested
+
+
 def rule_direct_wiring(rep: Report, repo: Repo):
     """Dispatch and formulas of the solver returned by solve_sylvester_direct, decided per concrete block index on
     resolved expressions; the Green's-function families are identified by how they are constructed."""
@@ -741,7 +762,7 @@ def rule_direct_wiring(rep: Report, repo: Repo):
     if not (isinstance(outer.body[-1], ast.Return) and isinstance(outer.body[-1].value, ast.Name)):
         raise AnalysisError(R, "solve_sylvester_direct does not return a local closure")
     f = [d for d in outer.body if isinstance(d, ast.FunctionDef) and d.name == outer.body[-1].value.id]
-    gg = [d for d in outer.body if isinstance(d, ast.FunctionDef) and d.name == "grouped_greens_functions"]
+    gg = _greens_grouping_helper(repo, outer)
     if len(f) != 1 or len(gg) != 1:
         raise AnalysisError(R, "nested solver / grouped_greens_functions of solve_sylvester_direct not found")
     f, gg = f[0], gg[0]
